@@ -149,12 +149,78 @@ def quorum_use_sites(work, tier, seed, verdict):
         nkeys = len(sc["steps"][0]["a"]["set"]["keys"]) if sc else -1
         verdict.add("usesite/n=%d/%s" % (nkeys, fp.signature(rj, ln, comps)),
                     {"line": ln, "why": rj.get("why"), "spec_state": rj.get("spec"), "components": sorted(comps), "scenario": sc})
+    # the same histories through the real Run loop (a set update is installed by Run itself)
+    try:
+        llines, lwall = fp.replay(work, scs, "C07SL", runloop=True)
+    except fp.Crash as c:
+        verdict.add("usesite/runloop/" + c.sig, {"why": "the processor died on a quorum use-site history", "tail": c.tail[-3000:]})
+        return {"histories": len(scs), "crashed": True}
+    lslow = {ln["t"] for ln in llines if ln["ev"] == "Slow"}
+    llines = [ln for ln in llines if ln["t"] not in lslow]
+    lrejs, lr = fp.validate(work, llines, "C07SL")
+    print("quorum use sites, run-loop mode: %d lines through Processor.Run in %.1fs; %d rejected line(s)" % (len(llines), lwall, len(lrejs)))
+    lbyn = {(ln["t"], ln["n"]): ln for ln in llines}
+    for rj in lrejs:
+        ln = lbyn.get((rj["t"], rj["n"]), {"ev": rj.get("ev"), "a": {}, "s": {}})
+        props, comps = fp.attribute(rj, ln)
+        sc = scs[rj["t"] - 1] if 0 < rj["t"] <= len(scs) else None
+        nkeys = len(sc["steps"][0]["a"]["set"]["keys"]) if sc else -1
+        verdict.add("usesite/runloop/n=%d/%s" % (nkeys, fp.signature(rj, ln, comps)),
+                    {"line": ln, "why": rj.get("why"), "spec_state": rj.get("spec"), "components": sorted(comps), "scenario": sc, "mode": "run-loop"})
     inbound = Counter()
     for ln in lines:
         if ln["ev"] == "InboundVAA":
             inbound["stored" if ln["s"].get("db") and ln["a"]["w"]["id"] in ln["s"]["db"] else "refused"] += 1
     return {"histories": len(scs), "handler_calls": len(lines), "trace_spec_states": r["distinct"], "rejected": len(rejs),
+            "run_loop_lines": len(llines), "run_loop_rejected": len(lrejs), "histories_with_set_change": sum(1 for sc in scs if sc["src"].endswith("setchange")),
             "inbound_vaas": dict(inbound), "published": sum(1 for ln in lines for o in ln["s"].get("out", []) if o["kind"] == "vaa")}
+
+
+def verify_use_sites(work, tier, seed, verdict):
+    """C06 (called by chk_format): the two places of observation.go that verify signatures - the single signature of a
+    gossiped observation and VerifySignatures on an inbound signed VAA - driven with the corruption classes of the
+    property (forged, other digest, wrong address, outsider, swapped / duplicated / re-indexed / junk entries).  Only
+    lines whose INPUT is such a corruption are counted: what the node does with valid traffic belongs to C01/C02."""
+    n_agg, n_byz = (120, 150) if tier == "quick" else (2500, 3000)
+    scs = fp.gen_scenarios(seed + 606, n_agg, "aggregation") + fp.gen_scenarios(seed + 606, n_byz, "byzantine")
+    try:
+        lines, wall = fp.replay(work, scs, "C06S")
+    except fp.Crash as c:
+        verdict.add("usesite/" + c.sig, {"why": "the processor died on a signature-verification use-site history", "tail": c.tail[-3000:]})
+        return {"histories": len(scs), "crashed": True}
+    slow = {ln["t"] for ln in lines if ln["ev"] == "Slow"}
+    lines = [ln for ln in lines if ln["t"] not in slow]
+    rejs, r = fp.validate(work, lines, "C06S")
+    byn = {(ln["t"], ln["n"]): ln for ln in lines}
+    counted = other = 0
+    for rj in rejs:
+        ln = byn.get((rj["t"], rj["n"]), {"ev": rj.get("ev"), "a": {}, "s": {}})
+        props, comps = fp.attribute(rj, ln)
+        mine = False
+        if ln.get("ev") == "Observation":
+            o = ln["a"]["o"]
+            mine = (o["signer"] in ("ERR", "JUNK") or o["signer"] != o["claimed"] or o["over"] != o["d"]
+                    or str(o.get("shape", "")).startswith("prehash"))
+        elif ln.get("ev") == "InboundVAA":
+            sg = ln["a"]["w"].get("sigs", [])
+            idx = [x["idx"] for x in sg]
+            mine = (any(x["signer"] in ("ERR", "JUNK") or not str(x["signer"]).startswith(("g", "h")) for x in sg)
+                    or idx != sorted(set(idx)) or "panic" in comps)
+        if "panic" in comps and ln.get("ev") in ("Observation", "InboundVAA"):
+            mine = True
+        if mine:
+            counted += 1
+            sc = scs[rj["t"] - 1] if 0 < rj["t"] <= len(scs) else None
+            verdict.add("usesite/" + fp.signature(rj, ln, comps),
+                        {"line": ln, "why": rj.get("why"), "spec_state": rj.get("spec"), "components": sorted(comps), "scenario": sc})
+        else:
+            other += 1
+    nin = sum(1 for ln in lines if ln["ev"] == "InboundVAA")
+    nobs = sum(1 for ln in lines if ln["ev"] == "Observation")
+    print("signature-verification use sites of the node: %d histories (%d observations, %d inbound VAAs) in %.1fs; trace validation %d states, "
+          "%d rejected line(s) with a corrupted input, %d other" % (len(scs), nobs, nin, wall, r["distinct"], counted, other))
+    return {"histories": len(scs), "observations": nobs, "inbound_vaas": nin, "trace_spec_states": r["distinct"],
+            "rejected_with_corrupted_input": counted, "rejected_other_properties": other}
 
 
 def crashed(prop, tier, c, t0, mc_states, mc_trans, n):
@@ -194,10 +260,11 @@ def run(prop, tier, replay=None):
                 w2 = os.path.join(work, "ticker")
                 os.makedirs(w2, exist_ok=True)
                 rc_, out_, wall_ = vlib.go_test(w2, "node", fp.PKG, "TestVerifProcessorTicker", fp.INJECT,
-                                                env={"VERIF_TICKER": "1", "VERIF_SEED": seed}, timeout=300)
+                                                env={"VERIF_TICKER": "1", "VERIF_SEED": seed}, timeout=420)
                 import re
-                m = re.search(r"VERIF-TICKER cleanup_ran=(true|false) after=([0-9.]+)s limit=([0-9.]+)s", out_)
-                ticker.update({"ran": m.group(1) == "true", "after_s": float(m.group(2)), "limit_s": float(m.group(3))} if m else {"error": out_[-3000:]})
+                m = re.search(r"VERIF-TICKER cleanup_ran=(true|false) after=([0-9.]+)s limit=([0-9.]+)s restarted_ran=(true|false) after2=([0-9.]+)s", out_)
+                ticker.update({"ran": m.group(1) == "true", "after_s": float(m.group(2)), "limit_s": float(m.group(3)),
+                               "ran_after_run_restart": m.group(4) == "true", "after2_s": float(m.group(5))} if m else {"error": out_[-3000:]})
             except Exception as e:  # noqa: BLE001
                 ticker["error"] = "%s: %s" % (type(e).__name__, e)
         tick_thread = threading.Thread(target=tick)
@@ -301,6 +368,12 @@ def run(prop, tier, replay=None):
         if "error" in ticker:
             raise vlib.Broken("ticker fairness test did not complete:\n%s" % ticker["error"])
         print("tick source under steady traffic: cleanup pass %s after %.1fs (limit %.0fs)" % ("ran" if ticker["ran"] else "DID NOT RUN", ticker["after_s"], ticker["limit_s"]))
+        if ticker["ran"] and not ticker["ran_after_run_restart"]:
+            verdict.add("ticker/no-cleanup-pass-after-run-was-restarted",
+                        {"why": "after Run ended and was entered again on the same Processor (what the supervisor does) no cleanup pass was made within %.0fs" % ticker["limit_s"],
+                         "measured": ticker})
+        else:
+            print("tick source after Run was re-entered on the same Processor: cleanup pass ran after %.1fs" % ticker["after2_s"])
         if not ticker["ran"]:
             verdict.add("ticker/no-cleanup-pass-under-steady-traffic",
                         {"why": "with gossip arriving every 200 ms the Run loop made no cleanup pass within %.0fs (tick period 30 s): retries and expiry never happen" % ticker["limit_s"],
